@@ -2,8 +2,9 @@
 
 
 class _ProxyReport:
-    def __init__(self, R, mapping, label):
+    def __init__(self, R, mapping, label, keep=None):
         self.R = R
+        self.keep = keep            # optional predicate (rule, key) -> bool: which obligations of a mapped rule are shared
         self.mapping = mapping      # {source rule id: target rule id}; unmapped rules are dropped
         self.label = label
         self.analysed = R.analysed
@@ -21,15 +22,15 @@ class _ProxyReport:
     def ob(self, rule, ok, function, key, site="", detail="", nontrivial=True, path=None):
         self.rules.setdefault(rule, {"desc": "", "floor": 0, "n": 0})["n"] += 1
         self.obl.append({"rule": rule, "ok": ok, "function": function})
-        if rule in self.mapping:
+        if rule in self.mapping and (self.keep is None or self.keep(rule, key)):
             return self.R.ob(self.mapping[rule], ok, function, key, site, detail, nontrivial, path)
         return ok
 
 
 class _ProxyCtx:
-    def __init__(self, ctx, mapping, label):
+    def __init__(self, ctx, mapping, label, keep=None):
         self.ctx = ctx
-        self.R = _ProxyReport(ctx.R, mapping, label)
+        self.R = _ProxyReport(ctx.R, mapping, label, keep)
         self.tier = ctx.tier
         self.prop = ctx.prop
 
@@ -37,5 +38,5 @@ class _ProxyCtx:
         return self.ctx.program(units, *a, **k)
 
 
-def refile(ctx, module, mapping, label):
-    module.run(_ProxyCtx(ctx, mapping, label))
+def refile(ctx, module, mapping, label, keep=None):
+    module.run(_ProxyCtx(ctx, mapping, label, keep))
